@@ -467,7 +467,9 @@ def run_batch(prop, tier, master, nruns, workers, wall_cap_s, selftest_n):
             # seen only inside a worker that had executed other runs before: state leaked between runs
             reports.append({'sig': sig, 'known': False, 'runs': len(e['runs']), 'reproducible_in_isolation': False})
             continue
-        small = minimise(mod, chosen[0], sig)
+        # full budget for the first signatures, a token one for the tail (cascades of one defect)
+        nth = sum(1 for r_ in reports if r_.get('replay') or r_.get('known'))
+        small = minimise(mod, chosen[0], sig, budget=400 if nth < 2 else (120 if nth < 4 else 30))
         path, doc = write_replay(mod, small, chosen[1], tag=core.digest(sig)[:6])
         repro, rout = replay_in_fresh_process(path)
         known = match_known(prop, sig)
